@@ -25,6 +25,15 @@ EXTRA = {'C01': ['C06', 'C11', 'C03'], 'C03': ['C01'], 'C04': ['C01', 'C10'], 'C
          'C14': ['C12'], 'C18': ['C19'], 'C19': ['C18']}
 
 
+HOW = ('tools/seed_eval.py: scratch git worktree of /repo under /dev/shm, patch applied there (never in /repo), repository test suite, demo.py with and '
+       'without the patch, then ./check <id> --tier quick with VERIF_REPO pointing at the scratch worktree; the worktree is removed afterwards')
+# rounds 4 and 5 (rounds 1-3 carry their round in the committed meta.json)
+ROUND_OF = {f'{p}/{n}': 4 for p in ('C02', 'C03', 'C04', 'C05', 'C06', 'C09', 'C13', 'C15', 'C16', 'C19', 'C20') for n in ('7', '8')}
+ROUND_OF.update({'C10/5': 4, 'C10/6': 4})
+ROUND_OF.update({f'{p}/{n}': 5 for p in ('C01', 'C08', 'C12', 'C14', 'C17', 'C18') for n in ('7', '8')})
+ROUND_OF.update({f'{p}/{n}': 5 for p in ('C07', 'C11') for n in ('5', '6')})
+
+
 def sh(cmd, cwd=None, env=None, timeout=1500):
     r = subprocess.run(cmd, shell=True, cwd=cwd, env=env, capture_output=True, text=True, timeout=timeout)
     return r.returncode, (r.stdout + r.stderr)
@@ -74,7 +83,11 @@ def evaluate(prop, n):
             ev = os.path.join(scratch, '.verif_evidence')
             cenv = dict(os.environ, VERIF_REPO=scratch, VERIF_EVIDENCE_DIR=ev, VERIF_REPLAY_DIR=os.path.join(scratch, '.verif_replays'))
             t0 = time.time()
-            rcc, outc = sh(f'./check {c} --tier quick', cwd=VERIF, env=cenv, timeout=1500)
+            try:
+                rcc, outc = sh(f'./check {c} --tier quick', cwd=VERIF, env=cenv, timeout=2400)
+            except subprocess.TimeoutExpired:
+                sh(f"pkill -f 'pyvc.main {c} --tier quick'")
+                rcc, outc = 124, f'{c}: the check did not finish within 2400 s on the changed tree'
             viol = [l for l in outc.splitlines() if l.startswith('VIOLATION')]
             obls = [l.strip()[:300] for l in outc.splitlines() if l.strip().startswith('obligation ')]
             meta['ran'].append({'check': c, 'cmd': f'VERIF_REPO=<scratch copy with patch> ./check {c} --tier quick', 'exit': rcc, 'violations': len(viol),
@@ -111,6 +124,19 @@ def main():
             for f in ('patch.diff', 'demo.py', 'notes.md', 'patch.orig.diff'):
                 if os.path.exists(os.path.join(d, n, f)):
                     shutil.copy(os.path.join(d, n, f), os.path.join(dst, f))
+            # annotations that are not produced by the evaluation itself survive a re-evaluation
+            old_meta = {}
+            if os.path.exists(os.path.join(dst, 'meta.json')):
+                try:
+                    old_meta = json.load(open(os.path.join(dst, 'meta.json')))
+                except ValueError:
+                    old_meta = {}
+            for k in ('round', 'ported', 'status_note'):
+                if k in old_meta and k not in meta:
+                    meta[k] = old_meta[k]
+            if 'round' not in meta:
+                meta['round'] = ROUND_OF.get(f'{prop}/{n}')
+            meta['how_evaluated'] = HOW
             json.dump(meta, open(os.path.join(dst, 'meta.json'), 'w'), indent=1)
             print(prop, n, 'applies' if meta.get('patch_applies') else 'NOAPPLY', 'confirmed' if meta.get('confirmed') else 'unconfirmed',
                   'detected_by', meta.get('detected_by'), flush=True)
